@@ -562,7 +562,6 @@ var templatesExt = []string{
 	"last line without newline",
 }
 
-
 // ---------------------------------------------------------------- long physical lines
 
 // longLineKinds: one physical line of exactly L bytes (newline included) for each syntactic place where a cut in
